@@ -16,6 +16,7 @@ import (
 	"fmt"
 	"io"
 	"math/rand"
+	"strconv"
 	"strings"
 
 	gojson "github.com/goccy/go-json"
@@ -26,13 +27,13 @@ import (
 )
 
 type Params struct {
-	Table    string `json:"table"`
-	MaxLen   int    `json:"max_len"`
-	StrItems int    `json:"str_items"`
-	Random   int    `json:"random"`
-	RandomSeeded int `json:"random_seeded"`
-	PathLen  int    `json:"path_len"`
-	Depths   []int  `json:"depths"`
+	Table        string `json:"table"`
+	MaxLen       int    `json:"max_len"`
+	StrItems     int    `json:"str_items"`
+	Random       int    `json:"random"`
+	RandomSeeded int    `json:"random_seeded"`
+	PathLen      int    `json:"path_len"`
+	Depths       []int  `json:"depths"`
 }
 
 type Target struct {
@@ -377,9 +378,41 @@ func Run(job *wk.Job, w *wk.Worker) error {
 						gen += "+closers"
 					}
 					g := fmt.Sprintf("%s (depth %d, closed=%v, %d bytes)", gen, depth, closed, len(in))
-					w.Begin(idx, func() interface{} { return CaseDesc{Part: "N", Target: "*", Gen: genExpr(u.open, depth, u.leaf, u.close, closed), Text: g} })
+					w.Begin(idx, func() interface{} {
+						return CaseDesc{Part: "N", Target: "*", Gen: genExpr(u.open, depth, u.leaf, u.close, closed), Text: g}
+					})
 					w.Nontrivial()
 					r.execHuge("N", in, genExpr(u.open, depth, u.leaf, u.close, closed), idx)
+				}
+				idx++
+			}
+		}
+	}
+	// part L: tokens placed at every offset around the stream buffer's boundaries (512, then 1024 after one doubling):
+	// a token whose first, middle or last byte is the last data byte of a completely filled buffer, whole and truncated there
+	toks := []string{`"\xef\xbc\x81"`, `"\xc3\xa9"`, `"\xe2\x82\xac"`, `"\xf0\x9f\x98\x80"`, `"\\n"`, `"\\u00e9"`, `"\\ud83d\\ude00"`, `"plain"`,
+		`-12345.5e+3`, `true`, `null`, `{"k":1}`, `{"\xef\xbc\x81":[]}`, `[[]]`}
+	for _, tk := range toks {
+		tok, err := strconv.Unquote(`"` + strings.ReplaceAll(tk, `"`, `\"`) + `"`)
+		if err != nil {
+			return fmt.Errorf("part L token %q: %v", tk, err)
+		}
+		for _, edge := range []int{512, 1024} {
+			for off := edge - 3 - len(tok); off <= edge+2; off++ {
+				if off < 2 {
+					continue
+				}
+				if w.Mine(idx) {
+					doc := "[" + strings.Repeat(" ", off-1) + tok + "]"
+					w.Begin(idx, func() interface{} { return desc("L", "*", []byte(doc)) })
+					w.Nontrivial()
+					r.exec("L", []byte(doc), "", idx)
+					if edge-1 < len(doc) {
+						r.exec("L", []byte(doc[:edge-1]), "", idx)
+					}
+					if edge < len(doc) {
+						r.exec("L", []byte(doc[:edge]), "", idx)
+					}
 				}
 				idx++
 			}
